@@ -41,6 +41,9 @@ pub enum Op {
     /// datagrams beyond the window are dropped by the endpoint)
     UdpReplies(u16, u8, u8, u16, bool),
     CloseUdpMux(u16),
+    /// 2-4 equal datagrams back to back to a closed UDP port on multiplexer (index) - the kernel
+    /// refuses every second one - then the multiplexer is closed
+    UdpBurstToClosedPort(u16, u8, u16),
 }
 
 #[derive(Serialize, Deserialize, Debug, Clone)]
@@ -267,6 +270,8 @@ async fn run_history(c: &Case) -> Verdict {
     }
     let mut muxes: Vec<UdpMuxState> = vec![];
     let mut udp_seq = 0u32;
+    // a UDP port nobody listens on (from this worker's partition below the ephemeral range)
+    let udp_closed_port = crate::engine::proc::free_port().map_err(|e| herr("port", e.to_string()))?;
     let mut assignment: Option<bool> = None;
     let auth = format!("Basic {}", b64(AUTH));
     let _ = s0;
@@ -677,6 +682,49 @@ async fn run_history(c: &Case) -> Verdict {
                 }
                 *model.down.entry("http2").or_default() += received;
             }
+            Op::UdpBurstToClosedPort(i, n, size) => {
+                let live: Vec<usize> = muxes.iter().enumerate().filter(|(_, m)| m.send.is_some()).map(|(k, _)| k).collect();
+                if live.is_empty() {
+                    continue;
+                }
+                let k = live[idx(*i, live.len())];
+                let n = 2 + *n as u64 % 3;
+                let size = 50 + *size as u64 % 500;
+                let before = parse_prometheus(&world.core.verif_metrics_text());
+                let sum_before = gauge(&before, "inbound_traffic_bytes", "\"http2\"") + gauge(&before, "outbound_traffic_bytes", "\"http2\"");
+                let src: std::net::SocketAddr = format!("10.7.{}.9:4000", k).parse().unwrap();
+                let dst: std::net::SocketAddr = format!("127.0.0.1:{}", udp_closed_port).parse().unwrap();
+                let mut wire = vec![];
+                for _ in 0..n {
+                    wire.extend_from_slice(&crate::reference::udpmux::encode_in(&crate::reference::udpmux::Datagram { source: src, destination: dst, app_name: "app".into(), payload: vec![0x43u8; size as usize] }));
+                }
+                // one DATA frame: the datagrams reach the forwarder back to back
+                muxes[k].send.as_mut().unwrap().send_data(Bytes::from(wire), false).map_err(|e| herr("h2", e.to_string()))?;
+                tokio::time::sleep(Duration::from_millis(150)).await;
+                let after = parse_prometheus(&world.core.verif_metrics_text());
+                let d = gauge(&after, "inbound_traffic_bytes", "\"http2\"") + gauge(&after, "outbound_traffic_bytes", "\"http2\"") - sum_before;
+                let d = d.max(0.0) as u64;
+                ensure!(
+                    d % size == 0 && d >= size && d < n * size,
+                    if d == n * size { "metrics:refused-datagrams-counted" } else { "metrics:traffic-bytes" },
+                    "step {}: {} datagrams of {} bytes sent back to back to a closed UDP port (the kernel refuses at least every second one): the HTTP/2 traffic counters grew by {} bytes",
+                    step,
+                    n,
+                    size,
+                    d
+                );
+                *model.up.entry("http2").or_default() += d;
+                // close that multiplexer: whatever became of the refused flow's socket is released
+                let m = &mut muxes[k];
+                if let Some(mut s) = m.send.take() {
+                    let _ = s.send_data(Bytes::new(), true);
+                }
+                if let Some(mut r) = m.recv.take() {
+                    let _ = tokio::time::timeout(Duration::from_millis(500), r.data()).await;
+                }
+                model.udp -= m.flows.len() as i64;
+                m.flows.clear();
+            }
             Op::CloseUdpMux(i) => {
                 let live: Vec<usize> = muxes.iter().enumerate().filter(|(_, m)| m.send.is_some()).map(|(k, _)| k).collect();
                 if live.is_empty() {
@@ -778,7 +826,7 @@ impl Suite for HistorySuite {
         "session-histories"
     }
     fn rule(&self) -> String {
-        "histories of 5-30 operations {open HTTP/1.1 session, open HTTP/2 session, open tunnel to a loopback canary, tunnel to a closed port (refused), transfer n bytes up and m bytes down (n != m in general), download 100-400 KB while the client withholds window updates (partial acceptance at the endpoint's client-side sink), close tunnel gracefully / by reset / destination first, close session, open a UDP multiplexer on an HTTP/2 session, client datagram of 8-1400 bytes on one of three flows to loopback UDP sockets, 1-120 reply datagrams of 200-1200 bytes to a client that reads them as they come or only afterwards with its window closed (the endpoint then drops what does not fit), close the multiplexer} against a real Core (in-memory client transports, real direct forwarder and real loopback TCP destinations); after every operation the exported text (Metrics::collect, the body of GET /metrics) must reach the model within 4 s: client_sessions per protocol = live sessions, outbound_tcp_sockets = live outbound connections, outbound_udp_sockets = live UDP flows, the two traffic series = payload bytes relayed in the two directions per protocol - for UDP the datagrams that reached the destination resp. the client, not the dropped ones - (either consistent assignment of series to directions), all back to zero at the end, every series named in METRICS.md present with its protocol_type label; non-trivial = history with a refused connect and an abortive close".into()
+        "histories of 5-30 operations {open HTTP/1.1 session, open HTTP/2 session, open tunnel to a loopback canary, tunnel to a closed port (refused), transfer n bytes up and m bytes down (n != m in general), download 100-400 KB while the client withholds window updates (partial acceptance at the endpoint's client-side sink), close tunnel gracefully / by reset / destination first, close session, open a UDP multiplexer on an HTTP/2 session, client datagram of 8-1400 bytes on one of three flows to loopback UDP sockets, 1-120 reply datagrams of 200-1200 bytes to a client that reads them as they come or only afterwards with its window closed (the endpoint then drops what does not fit), a burst of 2-4 datagrams to a closed UDP port (every second send is refused by the kernel), close the multiplexer} against a real Core (in-memory client transports, real direct forwarder and real loopback TCP destinations); after every operation the exported text (Metrics::collect, the body of GET /metrics) must reach the model within 4 s: client_sessions per protocol = live sessions, outbound_tcp_sockets = live outbound connections, outbound_udp_sockets = live UDP flows, the two traffic series = payload bytes relayed in the two directions per protocol - for UDP the datagrams that reached the destination resp. the client, not the dropped ones - (either consistent assignment of series to directions), all back to zero at the end, every series named in METRICS.md present with its protocol_type label; non-trivial = history with a refused connect and an abortive close".into()
     }
     fn strategy(&self, _: Tier) -> BoxedStrategy<Case> {
         let op = prop_oneof![
@@ -794,6 +842,7 @@ impl Suite for HistorySuite {
             4 => (any::<u16>(), 0u8..3, any::<u16>()).prop_map(|(a, b, c)| Op::UdpSend(a, b, c)),
             3 => (any::<u16>(), 0u8..3, any::<u8>(), any::<u16>(), any::<bool>()).prop_map(|(a, b, c, d, e)| Op::UdpReplies(a, b, c, d, e)),
             1 => any::<u16>().prop_map(Op::CloseUdpMux),
+            1 => (any::<u16>(), any::<u8>(), any::<u16>()).prop_map(|(a, b, c)| Op::UdpBurstToClosedPort(a, b, c)),
         ];
         prop::collection::vec(op, 5..=30).prop_map(|ops| Case { ops }).boxed()
     }
@@ -825,6 +874,7 @@ impl Suite for HistorySuite {
                     v.push("udp-replies-beyond-the-client-window");
                 }
                 Op::UdpReplies(..) if have_flow => v.push("udp-replies"),
+                Op::UdpBurstToClosedPort(..) if have_mux => v.push("udp-burst-to-closed-port"),
                 _ => {}
             }
         }
